@@ -360,11 +360,129 @@ def fam_args(out, tier, rnd):
                     out.done(w)
 
 
+# ------------------------------------------------------------------------------------------------ react (stage 3)
+def actions(w):
+    """what an application may do from inside a callback"""
+    return {
+        "publish0": lambda: w.publish(A, "r/t", "re0", 0), "publish1": lambda: w.publish(A, "r/t", "re1", 1),
+        "publish2": lambda: w.publish(A, "r/t", "re2", 2), "subscribe": lambda: w.subscribe(A, [("r/s", 1)]),
+        "unsubscribe": lambda: w.unsubscribe(A, ["r/s"]), "disconnect": lambda: w.disconnect(A),
+        "connect": lambda: w.t[A].phase == "open" and w.connect(A, keepalive=0, cleanStart=True),      # A1
+    }
+
+
+def last_handle(w):
+    for e in reversed(w.lines[-1]["fx"]):
+        if e["k"] == "ret":
+            return e["d"]
+    return 0
+
+
+def fam_react(out, tier, rnd):
+    names = ["publish0", "publish1", "publish2", "subscribe", "unsubscribe", "disconnect", "connect"]
+    windows = (1, 2, 16) if tier == "quick" else (1, 2, 3, 4, 16)
+    def start(prof, ka=0, clean=True, window=1, handlers=True):
+        w = out.world(prof, meta={"reactive": 1})
+        w.build(A)
+        if handlers:
+            w.set(A, "onDisconnection", 1); w.set(A, "onPublish", 1); w.set(A, "onMqttConnectionMade", 1)
+        w.set(A, "window", window)
+        return w
+    def finish(w):
+        if w.t[A].phase != "lost":
+            w.lost(A, "done")
+        drain(w, 6); out.done(w)
+    for prof in ("pub", "sub", "both"):
+        for act in names:
+            # (a) the application reacts to the acknowledgement of a request while the window is otherwise full
+            for kind in ("publish1", "publish2", "subscribe", "unsubscribe"):
+                if (kind.startswith("publish") and prof == "sub") or (not kind.startswith("publish") and prof == "pub"):
+                    continue
+                for win in windows:
+                    for extra in (0, 1):                   # the window exactly full / one request held back or refused
+                        w = start(prof, window=win)
+                        w.connect(A, keepalive=0, cleanStart=True); w.recv(A, W.connack(0, 0))
+                        hs = []
+                        for i in range(win + extra):
+                            actions(w)[kind](); hs.append(last_handle(w))
+                        w.on_deferred(hs[0], "ok", actions(w)[act])
+                        first = w.lines[-(win + extra)]
+                        mid = next((e["mid"] for e in first["fx"] if e["k"] == "ret"), 1)
+                        if kind == "publish1":
+                            w.recv(A, W.ack("PUBACK", mid))
+                        elif kind == "publish2":
+                            w.recv(A, W.ack("PUBREC", mid)); w.recv(A, W.ack("PUBCOMP", mid))
+                        elif kind == "subscribe":
+                            w.recv(A, W.suback(mid, [1]))
+                        else:
+                            w.recv(A, W.ack("UNSUBACK", mid))
+                        actions(w)["publish1" if prof != "sub" else "subscribe"]()      # the state afterwards, observed by one more call
+                        finish(w)
+            # (b) ... to the failure of a request: loss of a clean connection, clean connect() over a persistent session
+            for kind in ("publish1", "publish2", "subscribe"):
+                if (kind.startswith("publish") and prof == "sub") or (not kind.startswith("publish") and prof == "pub"):
+                    continue
+                for clean in (True, False):
+                    w = start(prof, window=2)
+                    w.connect(A, keepalive=2, cleanStart=clean); w.recv(A, W.connack(0, 0))
+                    hs = []
+                    for i in range(3):
+                        actions(w)[kind](); hs.append(last_handle(w))
+                    w.on_deferred(hs[0], "fail", actions(w)[act])
+                    w.on_deferred(hs[2], "fail", actions(w)["publish1" if prof != "sub" else "subscribe"])
+                    w.lost(A, "lost")
+                    w.build(A); w.set(A, "onDisconnection", 1)
+                    w.connect(A, keepalive=0, cleanStart=True)       # purges what a persistent session kept
+                    w.recv(A, W.connack(0, 0))
+                    actions(w)["publish1" if prof != "sub" else "subscribe"]()
+                    finish(w)
+            # (c) ... to the outcome of connect(): accepted, refused, timed out
+            for outcome in ("ok", "refused", "timeout"):
+                for ka in (0, 3):
+                    w = start(prof)
+                    w.connect(A, keepalive=ka, cleanStart=True)
+                    w.on_deferred(last_handle(w), "ok" if outcome == "ok" else "fail", actions(w)[act])
+                    if outcome == "timeout":
+                        w.fire(w.due()[0])
+                    else:
+                        w.recv(A, W.connack(0 if outcome == "ok" else 5, 0))
+                    if w.t[A].phase == "open" and type(w.p[A].state).__name__ == "ConnectingState":
+                        w.recv(A, W.connack(0, 0))
+                    actions(w)["publish1" if prof != "sub" else "subscribe"]()
+                    if w.due() and ka:
+                        w.fire(w.due()[0])
+                    finish(w)
+            # (d) ... inside the handlers: onMqttConnectionMade, onPublish (QoS 0, 1, 2 at PUBREL), onDisconnection
+            for ka in (0, 3):
+                w = start(prof)
+                w.on_cb(A, "onMqttConnectionMade", actions(w)[act])
+                w.connect(A, keepalive=ka, cleanStart=False); w.recv(A, W.connack(0, 1))
+                actions(w)["publish1" if prof != "sub" else "subscribe"]()
+                if w.due():
+                    w.fire(w.due()[0])
+                finish(w)
+            if prof != "pub":
+                for q in (0, 1, 2):
+                    w = start(prof)
+                    w.connect(A, keepalive=0, cleanStart=True); w.recv(A, W.connack(0, 0))
+                    w.on_cb(A, "onPublish", actions(w)[act])
+                    w.recv(A, W.publish("in", b"x", q, 9))
+                    if q == 2:
+                        w.recv(A, W.ack("PUBREL", 9))
+                    w.recv(A, W.publish("in", b"y", 1, 10))
+                    finish(w)
+            w = start(prof)
+            w.connect(A, keepalive=0, cleanStart=True); w.recv(A, W.connack(0, 0))
+            w.on_cb(A, "onDisconnection", actions(w)[act])
+            w.lost(A, "done"); drain(w, 3)
+            out.done(w)
+
+
 def main():
     outdir, fam, tier, seed = sys.argv[1], sys.argv[2], sys.argv[3], int(sys.argv[4])
     rnd = random.Random(seed)
     out = Out(outdir)
-    {"handshake": fam_handshake, "inject": fam_inject, "args": fam_args}[fam](out, tier, rnd)
+    {"handshake": fam_handshake, "inject": fam_inject, "args": fam_args, "react": fam_react}[fam](out, tier, rnd)
     out.close()
 
 
